@@ -10,6 +10,9 @@ import OV.Model.C08Scalar
 import OV.Model.C08Linalg
 import OV.Gen.C08Trace
 import OV.Lemmas.C08
+import OV.Model.C08Norm
+import OV.Gen.C08TraceB
+import OV.Lemmas.C08Norm
 /-!
 # C08 — torch_lib operator implementations agree with PyTorch eager
 
@@ -937,5 +940,74 @@ example : vector_norm.spec [2, 3, 4] (some [0, -1]) true = some [1, 3, 1] ∧ ve
 /-- FIXED 7d29f42 (was C08-vector-norm-keepdim-no-dim): `vector_norm(x[2,3], 2, None, keepdim=True)` is `[1,1]`. -/
 theorem aten_vector_norm_keepdim_no_dim_fixed :
     vector_norm.model [2, 3] none true = some [1, 1] ∧ vector_norm.spec [2, 3] none true = some [1, 1] := by decide
+
+/-! ## round 5: normalisation / sort / addmm / baddbmm / glu (OV.Model.C08Norm, second trace table) -/
+
+/-- Second regenerated trace table (`aten_layer_norm`, `aten_native_layer_norm`, `aten_sort`, `aten_addmm`, `aten_baddbmm`,
+`aten_glu`, each traced on a grid of argument classes): the model's term is the emitted term. -/
+theorem traces_match_models_b : ∀ e ∈ OV.Gen.C08TraceB.traceTable, e.1 = e.2 :=
+  OV.Gen.C08TraceB.ok_all
+
+/-- `aten_layer_norm` / `aten_native_layer_norm` (`native`): with `axis = -len(normalized_shape)` and the default weight
+`Expand(1, Shape(input, start=axis))`, ONNX `LayerNormalization` returns PyTorch's shapes — the input's shape, and for the
+native overload mean / rstd `input.shape[:r-k] ++ [1]*k` — for every rank, every `k` from 1 to the rank (so also
+`axis = -rank`), present or absent weight / bias, empty batch dims.  The hypothesis `numel ns ≠ 0` is forced: see the
+refutation below (open finding C08-layer-norm-empty-block). -/
+theorem aten_layer_norm_agrees_partial (native : Bool) (s ns : Shape) (w b : Option Shape) (out : List Shape)
+    (hne : numel ns ≠ 0) (h : layer_norm.spec native s ns w b = some out) :
+    layer_norm.model native s ns.length w b = some out :=
+  OV.Lemmas.C08.layer_norm_agrees native s ns w b out hne h
+
+example : numel [3, 4] ≠ 0 ∧ layer_norm.spec true [0, 2, 3, 4] [3, 4] none (some [3, 4]) = some [[0, 2, 3, 4], [0, 2, 1, 1], [0, 2, 1, 1]]
+    ∧ layer_norm.spec false [2, 3] [2, 3] (some [2, 3]) none = some [[2, 3]] := by decide
+
+/-- FINDING C08-layer-norm-empty-block: `torch.layer_norm(x[2,0], [0])` is `x` (shape `[2,0]`, mean/rstd `[2,1]`);
+onnxruntime's `LayerNormalization` refuses an empty normalised block, so the exported graph fails. -/
+theorem aten_layer_norm_empty_block_refuted :
+    layer_norm.spec true [2, 0] [0] none none = some [[2, 0], [2, 1], [2, 1]] ∧ layer_norm.model true [2, 0] 1 none none = none := by
+  decide
+
+/-- `aten_sort` (both trace-time branches: rank 0 → `Identity` and the constant index `0`; otherwise `TopK` with
+`K = Shape(self)[dim]`): values and indices have the input's shape wherever `torch.sort` accepts `dim`
+(every rank, `dim` from `-rank` to `rank-1`, size-0 dims). -/
+theorem aten_sort_agrees (s : Shape) (dim : Int) (out : List Shape) (h : sort.spec s dim = some out) :
+    sort.model s dim = some out :=
+  OV.Lemmas.C08.sort_agrees s dim out h
+
+example : sort.spec [2, 0, 3] (-3) = some [[2, 0, 3], [2, 0, 3]] ∧ sort.spec [] (-1) = some [[], []] ∧ sort.spec [2] 1 = none := by
+  decide
+
+/-- `aten_addmm` = `Gemm(mat1, mat2, self)`, exact in both directions: ONNX's unidirectional broadcast of `C` to `[M, N]`
+accepts precisely the `self` that `torch.addmm` accepts (`self` expandable to `[M, N]`: rank 0, 1, 2, 1s anywhere — nothing
+of higher rank, nothing that would enlarge the result), refuses what PyTorch refuses (inner sizes, ranks), and the result is
+`[M, N]`. -/
+theorem aten_addmm_agrees (c a b : Shape) : addmm.model c a b = addmm.spec c a b :=
+  OV.Lemmas.C08.addmm_exact c a b
+
+example : addmm.spec [] [2, 0] [0, 3] = some [2, 3] ∧ addmm.spec [2, 1] [2, 4] [4, 3] = some [2, 3]
+    ∧ addmm.spec [1, 1, 3] [2, 4] [4, 3] = none := by decide
+
+/-- `aten_baddbmm` = `Add(MatMul(batch1, batch2) [· alpha], self [· beta])`: for 3-D batches with equal batch and inner
+sizes and `self` expandable to `[B, M, N]`, the numpy-rule `MatMul` followed by the multidirectional `Add` has
+`torch.baddbmm`'s shape `[B, M, N]` (the graph is more permissive outside PyTorch's domain). -/
+theorem aten_baddbmm_agrees (c a b out : Shape) (h : baddbmm.spec c a b = some out) : baddbmm.model c a b = some out :=
+  OV.Lemmas.C08.baddbmm_agrees c a b out h
+
+example : baddbmm.spec [3] [2, 2, 4] [2, 4, 3] = some [2, 2, 3] ∧ baddbmm.spec [0, 1, 3] [0, 2, 2] [0, 2, 3] = some [0, 2, 3]
+    ∧ baddbmm.spec [1, 2, 2, 3] [2, 2, 2] [2, 2, 3] = none := by decide
+
+/-- `aten_glu` (`Split(num_outputs=2)` along `dim`, `Mul(first, Sigmoid(second))`): the halved shape wherever
+`torch.nn.functional.glu` accepts (rank ≥ 1, wrapped `dim`, even size), provided the split size is not 0 — forced:
+see the refutation below (open finding C08-glu-empty-dim). -/
+theorem aten_glu_agrees_partial (s : Shape) (dim : Int) (out : Shape)
+    (hd : ∀ a, normAxis s.length dim = some a → s.getD a 0 ≠ 0)
+    (h : glu.spec s dim = some out) : glu.model s dim = some out :=
+  OV.Lemmas.C08.glu_agrees_partial s dim out hd h
+
+example : (∀ a, normAxis [0, 4, 3].length (-2) = some a → [0, 4, 3].getD a 0 ≠ 0) ∧ glu.spec [0, 4, 3] (-2) = some [0, 2, 3] := by
+  decide
+
+/-- FINDING C08-glu-empty-dim: `glu(x[3,0], -1)` is `[3,0]` in PyTorch; `Split(num_outputs=2)` refuses an axis of size 0. -/
+theorem aten_glu_empty_dim_refuted : glu.spec [3, 0] (-1) = some [3, 0] ∧ glu.model [3, 0] (-1) = none := by decide
 
 end OV.Props.C08
